@@ -111,15 +111,56 @@ thread_local! {
 }
 pub fn install_panic_hook() {
     std::panic::set_hook(Box::new(|info| {
-        let loc = info.location().map(|l| {
+        let mut loc = info.location().map(|l| {
             let f = l.file();
             let f = f.strip_prefix("/repo/").unwrap_or(f);
             format!("{}:{}", f, l.line())
         }).unwrap_or_else(|| "?".into());
+        if !(loc.starts_with("crates/") || loc.starts_with("proof_parser/") || loc.starts_with("cli/")) {
+            // the panic was raised inside std / a dependency: name the innermost frame of the code under test
+            let bt = std::backtrace::Backtrace::force_capture().to_string();
+            let mut last_fn = String::new();
+            for line in bt.lines() {
+                let t = line.trim();
+                if let Some(rest) = t.strip_prefix("at /repo/") {
+                    let mut parts = rest.rsplitn(2, ':');
+                    let _col = parts.next();
+                    if let Some(fl) = parts.next() { loc = format!("{} in {} (via {})", fl, last_fn, loc.rsplit('/').next().unwrap_or("")); break; }
+                } else if !t.starts_with("at ") {
+                    // "12: path::to::function"
+                    last_fn = t.splitn(2, ": ").nth(1).unwrap_or(t).to_string();
+                }
+            }
+        }
         LAST_PANIC.with(|p| *p.borrow_mut() = Some(loc));
     }));
 }
 pub fn jerr(e: impl std::fmt::Debug) -> Value {
     let s = format!("{e:?}");
     json!(s.chars().take(120).collect::<String>())
+}
+
+/// Run `f` over `jobs` on `threads` worker threads, preserving order of results.
+pub fn par_map<J: Sync, R: Send>(jobs: &[J], threads: usize, f: impl Fn(usize, &J) -> R + Sync) -> Vec<R> {
+    let n = jobs.len();
+    let next = std::sync::atomic::AtomicUsize::new(0);
+    let results: std::sync::Mutex<Vec<Option<R>>> = std::sync::Mutex::new((0..n).map(|_| None).collect());
+    std::thread::scope(|s| {
+        for _ in 0..threads.max(1).min(n.max(1)) {
+            s.spawn(|| {
+                install_thread_state();
+                loop {
+                    let i = next.fetch_add(1, std::sync::atomic::Ordering::SeqCst);
+                    if i >= n { break; }
+                    let r = f(i, &jobs[i]);
+                    results.lock().unwrap()[i] = Some(r);
+                }
+            });
+        }
+    });
+    results.into_inner().unwrap().into_iter().map(|x| x.expect("job result")).collect()
+}
+fn install_thread_state() {}
+pub fn n_threads() -> usize {
+    std::env::var("VERIF_THREADS").ok().and_then(|s| s.parse().ok()).unwrap_or(12)
 }
